@@ -117,7 +117,7 @@ Section S.
     - unfold rollback_op in H. destruct (s_txn s); try (injection H as _ <-; discriminate).
       destruct (s_cur s) as [[cid st0]|] eqn:Hc; [|injection H as _ <-; discriminate].
       destruct (call_or_handle faults lst K_ROLLBACK cid s) as [s1 c1] eqn:Hcoh.
-      assert (X : s' = set_txn s1 TNone [] /\ c = ROk \/ s' = set_txn s1 TNone (s_nested s1) /\ c = c1)
+      assert (X : s' = set_txn s1 TNone [] /\ c = ROk \/ s' = set_txn s1 TNone [] /\ c = c1)
         by (destruct c1; injection H as <- <-; auto).
       destruct X as [[_ ->]|[-> ->]]; [discriminate|]. cbn. eapply coh_disc_cur; eauto.
     - unfold savepoint_op in H.
@@ -278,6 +278,73 @@ Section S.
     destruct (coh_spec faults lst _ _ _ _ _ _ Hc2 Hcoh) as [(-> & -> & _)|[(_ & _ & _ & X)|(_ & _ & _ & X)]]; try congruence.
     exists (called K_EXEC cid (autobegin s1)). rewrite Heq. split; [reflexivity|].
     unfold invalidated, in_txn. cbn. rewrite Hc2, (F10 Hi). auto.
+  Qed.
+
+  (* no transaction in progress => no current savepoint: holds initially, kept by every operation *)
+  Definition no_orphan_savepoint (s : st) : Prop := s_txn s = TNone -> s_nested s = [].
+
+  Lemma exec_keeps_txn : forall s1 s2 c2, exec_path s1 = (s2, c2) -> s_txn s1 <> TNone -> s_txn s2 <> TNone.
+  Proof. intros s1 s2 c2 He Hn. destruct (exec_path_gen _ _ _ He) as (_ & _ & _ & [E|[E _]] & _); congruence. Qed.
+
+  Lemma exec_orphan : forall s s' c, no_orphan_savepoint s -> exec_path s = (s', c) -> no_orphan_savepoint s'.
+  Proof.
+    intros s s' c HN H Ht. destruct (exec_path_gen _ _ _ H) as (En & _ & _ & [E|[_ E]] & _); [|congruence].
+    rewrite En. apply HN. congruence.
+  Qed.
+
+  Lemma begin_orphan : forall s s' c, no_orphan_savepoint s -> begin_op faults lst s = (s', c) -> no_orphan_savepoint s'.
+  Proof.
+    intros s s' c HN H. unfold begin_op in H. destruct (s_txn s) eqn:Et; try (injection H as <- _; exact HN).
+    destruct (ensure faults lst s) as [s1 e] eqn:He. destruct (ensure_frame _ _ _ _ _ He) as (A & B & _).
+    destruct e; injection H as <- _; intros X; cbn in X; [|discriminate]. rewrite B. apply HN. exact Et.
+  Qed.
+
+  Theorem step_orphan : forall o s s' c, no_orphan_savepoint s -> step o s = (s', c) -> no_orphan_savepoint s'.
+  Proof.
+    intros o s s' c HN H. destruct o; cbn [Disconnect.step] in H.
+    - eapply exec_orphan; eauto.
+    - eapply begin_orphan; eauto.
+    - unfold commit_op in H. destruct (s_txn s) eqn:Et; try (injection H as <- _; exact HN).
+      destruct (s_cur s) as [[cid st0]|]; [|injection H as <- _; intros X; reflexivity].
+      destruct (call_or_handle faults lst K_COMMIT cid s) as [s1 c1]. destruct c1; injection H as <- _; intros X; reflexivity.
+    - unfold rollback_op in H. destruct (s_txn s) eqn:Et; try (injection H as <- _; try exact HN; intros X; reflexivity).
+      destruct (s_cur s) as [[cid st0]|]; [|injection H as <- _; intros X; reflexivity].
+      destruct (call_or_handle faults lst K_ROLLBACK cid s) as [s1 c1]. destruct c1; injection H as <- _; intros X; reflexivity.
+    - unfold savepoint_op in H.
+      destruct (match s_txn s with TNone => begin_op faults lst s | _ => (s, ROk) end) as [s1 c1] eqn:Hb.
+      assert (HN1 : no_orphan_savepoint s1).
+      { destruct (s_txn s); [eapply begin_orphan; eauto|injection Hb as <- _; exact HN|injection Hb as <- _; exact HN]. }
+      destruct c1; try (injection H as <- _; exact HN1).
+      destruct (exec_path s1) as [s2 c2] eqn:He. pose proof (exec_orphan _ _ _ HN1 He) as HN2.
+      destruct (exec_path_gen _ _ _ He) as (_ & _ & Ok & _).
+      destruct c2; injection H as <- _; try exact HN2.
+      intros X. cbn in X. destruct (Ok eq_refl) as [_ Y]. congruence.
+    - unfold rollback_sp_op in H. destruct (s_nested s) as [|a rest] eqn:En; [injection H as <- _; exact HN|].
+      assert (Ht : s_txn s <> TNone) by (intros X; specialize (HN X); congruence).
+      destruct (a && _ && _).
+      + destruct (exec_path s) as [s1 c1] eqn:He. injection H as <- _. intros X. cbn in X.
+        exfalso. exact (exec_keeps_txn _ _ _ He Ht X).
+      + injection H as <- _. intros X. cbn in X. congruence.
+    - unfold release_sp_op in H. destruct (s_nested s) as [|[|] rest] eqn:En; try (injection H as <- _; exact HN).
+      assert (Ht : s_txn s <> TNone) by (intros X; specialize (HN X); congruence).
+      destruct (exec_path s) as [s1 c1] eqn:He.
+      destruct c1; injection H as <- _; intros X; cbn in X; exfalso; exact (exec_keeps_txn _ _ _ He Ht X).
+  Qed.
+
+  Lemma final_orphan : forall h s, no_orphan_savepoint s -> no_orphan_savepoint (final faults lst h s).
+  Proof.
+    induction h as [|o h IH]; intros s HN; [exact HN|]. cbn [final].
+    destruct (step o s) as [s1 c] eqn:Hs. cbn [fst]. apply IH. eapply step_orphan; eauto.
+  Qed.
+
+  (* unguarded, for every reachable state: invalidated, no transaction in progress, the database back *)
+  Theorem reconnects_when_no_transaction : forall w h s, s = final faults lst h (init w) ->
+    s_cur s = None -> s_txn s = TNone ->
+    faults (S (s_n s)) = FOk -> faults (S (S (s_n s))) = FOk ->
+    exists s', step OExec s = (s', ROk) /\ invalidated s' = false /\ in_txn s' = true.
+  Proof.
+    intros w h s -> Hc Ht F1 F2. apply reconnects_when_unblocked; auto.
+    rewrite (final_orphan h (init w) (fun _ => eq_refl) Ht). reflexivity.
   Qed.
 
   Theorem reconnects_after_rollback : forall s, blocked s ->
